@@ -32,6 +32,15 @@ for p in (str(ROOT / "harness" / "stubs"), str(REPO)):
         sys.path.insert(0, p)
 warnings.filterwarnings("ignore")
 
+# Every computation of the harness itself uses dask's synchronous scheduler: worker processes are forked, and a
+# forked child that inherits the parent's (thread-less) threaded-scheduler pool dead-locks.  Checks that study
+# the threaded scheduler (C12) select it explicitly inside their worker processes.
+try:
+    import dask as _dask
+    _dask.config.set(scheduler="synchronous")
+except ImportError:      # pragma: no cover
+    pass
+
 
 def seed() -> int:
     try:
